@@ -428,6 +428,11 @@ class Ops:
             return VAL.vs(k.t)
         if isinstance(k, SOpt):
             return self.key_term(k.inner)
+        if isinstance(k, SInt):
+            # an int-keyed map (message ids): keys are the integers themselves.  Strings are interned codes in the same sort, so a
+            # map that mixed str and int keys could alias them; no such map exists in the modelled code (listed assumption)
+            self.st.assumptions.add("int-keyed dicts do not also hold str keys")
+            return k.t
         raise Unsupported(f"dict key {type(k).__name__}")
 
     def dict_get(self, d: SDict, k: V):
